@@ -70,7 +70,8 @@ def call_options(draw, cfg, tau=True, limit=True):
     out = {}
     if tau:
         out["tau"] = draw(st.one_of(
-            st.none(), st.none(), st.just(0.0), st.just(beta / 50.0), st.floats(0.0, 2.0).map(lambda u: u * beta)))
+            st.none(), st.none(), st.just(0.0), st.just(beta / 50.0), st.floats(0.0, 2.0).map(lambda u: u * beta),
+            st.sampled_from([0, 1, 2] if beta >= 0.5 else [0])))  # ... and Python ints, as in rate(teams, tau=1)
     if limit:
         out["limit_sigma"] = draw(st.sampled_from([None, None, True, False]))
     return out
@@ -424,7 +425,7 @@ def encodings(draw, classes, kinds=ALL_ENC):
 # ------------------------------------------------------------------------------------------------
 @st.composite
 def games(draw, kinds=KINDS, enc_kinds=ALL_ENC, regimes=REGIMES, max_teams=8, max_size=8, options=True, cfg_kw=None,
-          order_shapes=None, allow_zero_sigma=False, cfg=None):
+          order_shapes=None, allow_zero_sigma=False, cfg=None, extras=True):
     """A full valid rate() case: {'cfg', 'teams', 'call', 'classes', 'meta'}."""
     if cfg is None:
         cfg = draw(configs(kinds=kinds, **(cfg_kw or {})))
@@ -442,7 +443,12 @@ def games(draw, kinds=KINDS, enc_kinds=ALL_ENC, regimes=REGIMES, max_teams=8, ma
     if frag and draw(st.integers(0, 9)) == 0:
         # the values are ints / floats by isinstance, but instances of subclasses (what enum.IntEnum members, or a user's own numeric types, are)
         call["number_types"] = draw(st.sampled_from(["int-subclass", "float-subclass", "both"]))
-    if draw(st.integers(0, 7)) == 0:
+    if extras and draw(st.integers(0, 7)) == 0:
+        # the model has been through one call that did not complete normally before this one (osk.model_for)
+        from vf import failing
+
+        call["prelude"] = draw(failing.failing_specs(cfg))
+    if extras and draw(st.integers(0, 7)) == 0:
         # distinct rating objects that share one id (deepcopy clones of a template with their own values): see osk.mk_teams
         call["clone_ids"] = draw(st.sampled_from(["all", "alternate"]))
     return {"cfg": cfg, "teams": teams, "call": call, "classes": classes, "meta": {"regime": regime, "enc": enc, **info}}
